@@ -36,6 +36,7 @@ type Ctx struct {
 	rule    string // current rule text
 	rid     string // current rule id prefix, e.g. "C07-R2"
 	sites   int    // call sites / constructs inspected
+	goT     map[*ssa.Function]bool
 }
 
 type lostAnchor struct{ what string }
